@@ -10,6 +10,7 @@ CONSTANT Workloads          \* sequence of workloads, one per goroutine
 W2 == << <<"eval", 1, 1>>, <<"eval", 1, 2>> >>
 W2b == << <<"eval", 2, 1>>, <<"eval", 2, 3>> >>
 W3 == << <<"eval", 3, 1>>, <<"eval", 3, 2>>, <<"eval", 3, 3>> >>
+W2c == << <<"eval", 4, 4>>, <<"eval", 4, 5>> >>
 W3b == << <<"eval", 1, 3>>, <<"eval", 3, 2>>, <<"eval", 2, 1>> >>
 
 G == Len(Workloads)
